@@ -867,16 +867,19 @@ impl<'a> Parser<'a> {
     fn parse_triples_block(&mut self) -> Result<Vec<TriplePattern>> {
         let mut triples = Vec::new();
 
+        // At least one triple: the callers loop until the closing brace, so returning an
+        // empty block for a token that starts no graph pattern (`)`, `.`, a stray keyword)
+        // would consume nothing and the loop would never end.
         loop {
-            if !self.is_triple_start() {
-                break;
-            }
-
             self.parse_triples_same_subject(&mut triples)?;
 
             // Optional trailing dot
             if self.current.kind == TokenKind::Dot {
                 self.advance();
+            }
+
+            if !self.is_triple_start() {
+                break;
             }
         }
 
